@@ -57,6 +57,10 @@ pub const SCENARIOS: &[(&str, u8)] = &[
     ("extend_from_slice/drop-unwinding", F_CLONE),
     ("alloc_slice_try_fill_with", F_CALLBACK),
     ("boxed-slice-from_iter_in", F_ITER),
+    ("extend_from_slice-spare-capacity", F_CLONE),
+    ("resize-grow-spare-capacity", F_CLONE),
+    ("extend-spare-capacity", F_ITER),
+    ("insert-remove-then-clone-spare", F_CLONE),
 ];
 
 struct TIter {
@@ -143,6 +147,32 @@ fn exec<'b>(sc: usize, b: &'b Bump, slot: &mut Option<BVec<'b, Tracked>>, held: 
         "clone" => {
             let c = slot.as_ref().unwrap().clone();
             held.extend(c.into_iter());
+        }
+        "extend_from_slice-spare-capacity" | "resize-grow-spare-capacity" | "extend-spare-capacity" | "insert-remove-then-clone-spare" => {
+            // the vector already has room (and stale bit patterns of removed elements) behind its length
+            let v = slot.as_mut().unwrap();
+            v.reserve(extra.len() + 8);
+            let keep = v.len() / 2;
+            v.truncate(keep);
+            match name {
+                "extend_from_slice-spare-capacity" => {
+                    let src: Vec<Tracked> = extra.iter().map(|k| Tracked::new(*k)).collect();
+                    v.extend_from_slice(&src);
+                    held.extend(src);
+                }
+                "resize-grow-spare-capacity" => {
+                    let n = v.len() + extra.len() + 1;
+                    v.resize(n, Tracked::new(66));
+                }
+                "extend-spare-capacity" => v.extend(titer(extra, true)),
+                _ => {
+                    v.insert(0, Tracked::new(5));
+                    let x = v.remove(0);
+                    held.push(x);
+                    let c = v.clone();
+                    held.extend(c.into_iter());
+                }
+            }
         }
         "splice-exact-hint" => {
             let v = slot.as_mut().unwrap();
